@@ -16,6 +16,23 @@ func writeAct(rng *rand.Rand, nkeys int) TAct {
 	return TAct{Op: "apply", NS: ns, Name: name, Labels: randLabels(rng)}
 }
 
+// pickFilter: mostly filters that accept a good part of the universe
+func pickFilter(rng *rand.Rand) world.FilterSpec {
+	if rng.Intn(3) == 0 {
+		return randFilter(rng)
+	}
+	return []world.FilterSpec{{Op: "null"}, {Op: "labels2", V: "|"}, {Op: "not", Sub: []world.FilterSpec{{Op: "labels", K: "app", V: "b"}}}, {Op: "nsnames", V: "n1/,n2/,/a,/b"}}[rng.Intn(4)]
+}
+
+// quietMs: the length of a quiet period - minutes when nothing relists,
+// otherwise bounded by a few dozen refresh cycles (every relist costs steps).
+func quietMs(rng *rand.Rand, periodMs int) int {
+	if periodMs <= 0 {
+		return pickInt(rng, 1100, 5500, 16000, 61000, 600000)
+	}
+	return pickInt(rng, 1100, 5500, 16000, 31000)
+}
+
 func baseTree(g GenCtx) (*Tree, *rand.Rand) {
 	rng := g.Rng
 	sc := &Tree{Prop: g.Prop, Bufsiz: 100}
@@ -123,6 +140,11 @@ func genC05(g GenCtx) interface{} {
 		if sc.Reuse || inflight >= 20 || rng.Intn(6) == 0 {
 			sc.Acts = append(sc.Acts, TAct{Op: "settle"})
 			inflight = 0
+			if rng.Intn(8) == 0 {
+				// a quiet period of seconds to minutes (simulated time is free):
+				// idle timers, watchdogs and keep-alives get their chance to fire
+				sc.Acts = append(sc.Acts, TAct{Op: "sleep", Ms: quietMs(rng, sc.PeriodMs)})
+			}
 		}
 		if nNodes > 0 && rng.Intn(4) == 0 {
 			mk()
@@ -158,6 +180,42 @@ func genC06(g GenCtx) interface{} {
 		sc.Init = append(sc.Init, bulkInit(rng, bulkSize(rng))...)
 		sc.Bufsiz = 100
 		sc.NoOverflow = false // a refilter over hundreds of objects is one batch larger than any buffer
+	}
+	if g.Idx%16 == 11 {
+		// deferred nodes that wait for their first filter through more parent
+		// events than a buffer holds (in bursts a healthy pipeline absorbs: nothing
+		// may overflow anywhere), with keys that come and go meanwhile
+		sc.Bufsiz, sc.NoOverflow, sc.PeriodMs, sc.HoldFirstList = 100, true, 0, false
+		sc.Filter = world.FilterSpec{}
+		sc.Init = genInit(rng, nkeys)
+		b := &treeBuilder{sc: sc}
+		b.add(-1, "sub", TAct{Reader: "eager"})
+		var deferred []int
+		deferred = append(deferred, b.add(-1, "subff", TAct{Reader: "eager"}))
+		c := b.add(-1, "cloneff", TAct{})
+		deferred = append(deferred, c)
+		b.add(c, "sub", TAct{Reader: "eager"})
+		if rng.Intn(2) == 0 {
+			pc := b.add(-1, "clone", TAct{})
+			deferred = append(deferred, b.add(pc, "subff", TAct{Reader: "eager"}))
+		}
+		in := 0
+		for i := 105 + rng.Intn(60); i > 0; i-- {
+			sc.Acts = append(sc.Acts, writeAct(rng, nkeys))
+			in++
+			if in >= 12 {
+				sc.Acts = append(sc.Acts, TAct{Op: "settle"})
+				in = 0
+			}
+		}
+		sc.Acts = append(sc.Acts, TAct{Op: "check"})
+		for _, d := range deferred {
+			sc.Acts = append(sc.Acts, TAct{Op: "refilter", Node: d, Filter: pickFilter(rng)})
+		}
+		sc.Acts = append(sc.Acts, TAct{Op: "settle"}, TAct{Op: "check"}, writeAct(rng, nkeys), TAct{Op: "check"})
+		sc.Sim.Strategy.StallPermille = 0
+		sc.Sim.MaxSteps = 400000
+		return sc
 	}
 	b := &treeBuilder{sc: sc}
 	nNodes := 1 + rng.Intn(6)
@@ -284,6 +342,10 @@ func genC10(g GenCtx) interface{} {
 			in = 0
 			if rng.Intn(10) == 0 {
 				sc.Acts = append(sc.Acts, TAct{Op: "check"})
+			}
+			if rng.Intn(12) == 0 {
+				// the stream pauses for seconds to minutes while consumers stay stalled
+				sc.Acts = append(sc.Acts, TAct{Op: "sleep", Ms: quietMs(rng, sc.PeriodMs)})
 			}
 			if len(stalledSubs) > 0 && rng.Intn(5) == 0 {
 				// a slow consumer catches up by a few events and stalls again: from
@@ -558,7 +620,7 @@ func genC16(g GenCtx) interface{} {
 	var mons []int
 	for i := 0; i < nMon; i++ {
 		p := b.randParent(rng, 3)
-		mons = append(mons, b.add(p, "monitor", TAct{HandlerMs: pickInt(rng, 0, 0, 1, 30), SelfClose: pickInt(rng, 0, 0, 0, 0, 1, 3, 8), CbAct: pick(rng, "", "", "close-self", "close-parent", "close-root", "list", "subscribe")}))
+		mons = append(mons, b.add(p, "monitor", TAct{NoInit: rng.Intn(6) == 0, HandlerMs: pickInt(rng, 0, 0, 1, 30), SelfClose: pickInt(rng, 0, 0, 0, 0, 1, 3, 8), CbAct: pick(rng, "", "", "close-self", "close-parent", "close-root", "list", "subscribe")}))
 	}
 	released := !sc.HoldFirstList
 	n := rng.Intn(40)
